@@ -163,6 +163,39 @@ pub fn run(ctx: &'static Ctx) {
             l.fail(ctx, idx, v, || json!({"kind": "cmd-payload", "byte": byte, "payload": hex(&pl)}));
         }
     });
+    // "whatever bytes follow" up to the largest message a transport can deliver (7609 bytes)
+    {
+        let lens: Vec<usize> = (0..=64).map(|k| 7608 - k).chain([4, 23, 24, 255, 256, 1023, 1024, 1025, 2048, 4096, 6000, 7000, 7400, 7500]).collect();
+        let per = (lens.len() * 4) as u64;
+        let lr = &lens;
+        sweep(ctx, "cmd-byte x long payloads", 256 * per, "256 first bytes x payload lengths 4..=7608 (every length of the last 64) x {zeros, 0xff, one text string filling the payload, one byte string filling the payload}", move |idx, l| {
+            let byte = (idx / per) as u8;
+            let q = (idx % per) as usize;
+            let n = lr[q / 4];
+            let payload: Vec<u8> = match q % 4 {
+                0 => vec![0u8; n],
+                1 => vec![0xff; n],
+                k => {
+                    let major = if k == 2 { 0x60u8 } else { 0x40 };
+                    let mut p = Vec::with_capacity(n);
+                    if n < 3 + 256 {
+                        p.resize(n, 0);
+                    } else {
+                        p.push(major | 25);
+                        p.extend_from_slice(&((n - 3) as u16).to_be_bytes());
+                        p.resize(n, b'a');
+                    }
+                    p
+                }
+            };
+            l.nontrivial += 1;
+            l.bump("long payload");
+            let v = check_point(byte, &payload);
+            if !v.ok {
+                l.fail(ctx, idx, v, || json!({"kind": "cmd-payload", "byte": byte, "payload": hex(&payload)}));
+            }
+        });
+    }
     if ctx.thorough() {
         sweep(ctx, "cmd-byte x every 3-byte payload", 256u64 << 24, "complete: 256 first bytes x all 16 777 216 three-byte payloads", |idx, l| {
             let byte = (idx >> 24) as u8;
